@@ -629,6 +629,13 @@ def provenance(fn, bid, idx, e, depth=0):
                 for j, a in enumerate(call["a"]):
                     args.append("_" if j == ai else provenance(fn, d[0], d[1], a, depth + 1))
                 alts.add("%s(%s)@%d" % (_callee_name(fn, call), ",".join(args), ai))
+            elif kind == "incdec":
+                # value before the increment, taken at the incrementing element itself
+                before = fn.defs_at(d[0], d[1], e["n"])
+                if before and d not in before and depth < 6:
+                    alts.add("(" + provenance(fn, d[0], d[1], {"k": "var", "n": e["n"], "s": e["s"], "t": e.get("t", "")}, depth + 1) + ")++")
+                else:
+                    alts.add("?")
             else:
                 alts.add("?")
         return " | ".join(sorted(alts))
